@@ -6,6 +6,7 @@ body = list of nodes.  Step / predicate methods consume a *script* given in the 
 script is derived from the call trace kept in ``ctx`` -- i.e. from persisted state only.
 An exhausted predicate script yields False (loops terminate), an exhausted return script None.
 """
+import functools
 import json
 
 import plumpy
@@ -15,6 +16,7 @@ from . import generated
 
 NSTEP = 24
 NPRED = 16
+DECORATED = set()  # names of the steps defined through a functools.wraps decorator
 
 
 class OutlineBase(plumpy.WorkChain):
@@ -43,6 +45,9 @@ class OutlineBase(plumpy.WorkChain):
 
     def _call(self, kind, name):
         tr = self.ctx.setdefault('tr', [])
+        if name in DECORATED and getattr(self, '_inside_wrapper', None) != name:
+            # the outline names the decorated attribute: what runs must be that, not the function underneath the decorator
+            name = name + '!undecorated'
         if kind == 'p':
             idx = sum(1 for t in tr if t.startswith('p'))
             script = self.inputs['preds']
@@ -52,6 +57,12 @@ class OutlineBase(plumpy.WorkChain):
             script = self.inputs['rets']
             val = script[idx] if idx < len(script) else None
         tr.append(name)
+        # one list reachable under two context keys, written through the second: the context is one object graph and
+        # a checkpoint has to keep it one
+        if not hasattr(self.ctx, 'log'):
+            self.ctx.log = []
+            self.ctx.last = self.ctx.log
+        self.ctx.last.append(name)
         if kind == 's' and self.inputs.get('midsave'):
             # the step saves the workchain from inside itself (e.g. an extra checkpoint under a tag); the saved state is not used
             plumpy.Bundle(self)
@@ -73,6 +84,18 @@ def _mk(kind, i):
         return self._call(kind, name)
 
     fn.__name__ = name
+    if kind == 's' and i % 3 == 1:
+        DECORATED.add(name)
+
+        @functools.wraps(fn)
+        def wrapper(self, *args, **kwargs):
+            self._inside_wrapper = name
+            try:
+                return fn(self, *args, **kwargs)
+            finally:
+                self._inside_wrapper = None
+
+        return wrapper
     return fn
 
 
@@ -107,12 +130,24 @@ def to_outline(cls, body):
 _CACHE = {}
 
 
-def outline_class(ast):
-    key = json.dumps(ast)
+class OutlineMustBase(OutlineBase):
+    """Declares a required output that no step emits: the chain ends unsuccessful, its result is still the value it stopped with."""
+
+    @classmethod
+    def define(cls, spec):
+        super().define(spec)
+        spec.output('must', valid_type=int)
+
+
+generated.register(OutlineMustBase, 'OutlineMustBase')
+
+
+def outline_class(ast, must=False):
+    key = json.dumps([ast, must]) if must else json.dumps(ast)
     cls = _CACHE.get(key)
     if cls is None:
         name = 'Outline_%d' % len(_CACHE)
-        cls = type(name, (OutlineBase,), {'AST': ast})
+        cls = type(name, (OutlineMustBase if must else OutlineBase,), {'AST': ast})
         generated.register(cls, name)
         _CACHE[key] = cls
     return cls
